@@ -192,8 +192,10 @@ package ischema
 //@   no_panic
 
 //@ func (ISchema).MustType
-//@   property C05
+//@   property C05 C02
 //@   panics when !(name in s.types)
+//-  the panic value is an error object, never nil: a caller that recovers it and tests `r == nil` sees the panic (getType)
+//@   panics_with panicvalue != nil
 //@   ensures result == s.types[name].Schema
 
 //@ func (*ISchema).addType
